@@ -98,6 +98,31 @@ def run_shard(spec):
         if found:
             res.violation({"program": text}, "roles/" + found.signature, found.detail)
 
+    # expressions that raise in statement (non-tail, value unused) position: R7RS calls these "an error", so there is no
+    # reference value, but every configuration must agree on whether the error happens (dropping a "dead" call drops it)
+    ops = ["(+ {a} {b})", "(- {a} {b})", "(* {a} {b})", "(/ {a} {b})", "(quotient {a} {b})", "(remainder {a} {b})", "(car {a})", "(vector-ref {v} {a})",
+           "(string-length {a})", "(< {a} {b})", "(exact {b})", "(char->integer {a})", "(length {a})", "(apply + {a} '())", "(abs {a})"]
+    vals = ["1", "0", "'a", "\"s\"", "x", "y", "1.5", "'()", "(quote (1))"]
+    for _ in range(60 if quick else 3000):
+        a, b = rng.choice(vals), rng.choice(vals)
+        stmt = rng.choice(ops).format(a=a, b=b, v="(vector 1 2)")
+        ctx = rng.choice(["(begin {s} 'ok)", "(let ((z 1)) {s} (+ z 1))", "((lambda (x) {s} x) 5)", "(if (begin {s} #t) 'yes 'no)",
+                          "(let loop ((i 0)) (if (< i 2) (begin {s} (loop (+ i 1))) 'done))", "(begin (define (f x y) {s} (list x y)) (f 0 'q))"])
+        text = ("(define x 0)\n(define y 'sym)\n(write (guard (e (#t 'raised)) %s))\n(newline)\n" % ctx.format(s=stmt))
+        outs = {}
+        bad = None
+        for name, variant, opts in BUILDS_ALL:
+            r = driver(variant).run(text, cpu=20, **opts)
+            if r.status != "ok":
+                bad = E.Found("crash/" + name, "%s died: %s %s\n%s" % (name, r.status, r.err[-400:], text))
+                break
+            outs[name] = r.body.strip()
+        if bad is None and len(set(outs.values())) > 1:
+            bad = E.Found("effectful-statement/configurations-differ", "%r\nprogram:\n%s" % (outs, text))
+        res.case({"stmt": text}, "raised" in outs.values(), cls=["error-in-statement-position", "builds:3"], sample=rng.random() < 0.02)
+        if bad:
+            res.violation({"stmt_program": text}, bad.signature, bad.detail)
+
     def test(data):
         g = PG.Gen(E.HypChooser(data), max_depth=4, fold_bias=True)
         text = g.program()
@@ -152,6 +177,14 @@ def run_shard(spec):
 
 
 def replay(case):
+    if "stmt_program" in case:
+        outs = {}
+        for name, variant, opts in BUILDS_ALL:
+            r = driver(variant).run(case["stmt_program"], cpu=20, **opts)
+            outs[name] = r.body.strip() if r.status == "ok" else r.status
+        if len(set(outs.values())) > 1:
+            return {"signature": "effectful-statement/configurations-differ", "detail": repr(outs) + "\n" + case["stmt_program"], "case": case}
+        return None
     if "arith" in case:
         c = case["arith"]
         prog = C04.render(0, c)
